@@ -264,6 +264,13 @@ class VRange:
         self.lo, self.hi, self.step = lo, hi, step
 
 
+class VCount:
+    """itertools.count(start, step)"""
+
+    def __init__(self, start, step):
+        self.start, self.step = start, step
+
+
 class VZip:
     def __init__(self, parts):
         self.parts = parts
